@@ -4,6 +4,7 @@ import A816.Model.Program
 import A816.Props.C15
 import A816.Proofs.ScanLocal
 import A816.Proofs.ScanExt
+import A816.Proofs.ScanToks
 /-!
 # C16 — Output does not depend on how the source text is laid out
 
@@ -28,6 +29,12 @@ metamorphic stream S4-relayout:
   blanks, tabs and newlines*: blank lines, indentation and trailing spaces at a between-token point change nothing.
   A comment is the same statement applied to the point after the comment (`scan_suffix_local` does not compare the
   tokens before the points), and the parser drops the COMMENT token (`comment_skipped`).
+* **`scan_append`, `scan_append_tokens`** (scanning is compositional over lines): for every text `p` that ends with a
+  newline and scans without error, every text `r` and every configuration whose mnemonics hold no newline,
+  `scan (p ++ r) = scan p ⧺ scan r`: the tokens of `p` (EOF apart) are exactly the first tokens of the scan of `p ++ r`, the
+  rest have the types and texts of the scan of `r`, and the outcome is that of `r`.  Corollaries for every text:
+  `leading_blanks`, `blank_lines_between` (blank lines / indentation lines between lines change no token type or text),
+  `insert_lines` (comment lines, statements or an included file's text inserted between lines add exactly their own tokens).
 -/
 namespace A816.C16
 open A816 C10
@@ -245,6 +252,69 @@ theorem scan_append (cfg : ScanCfg) (hcfg : ScanP.CfgOK cfg) (f f2 : Nat) (p r :
         (by show s.pos ≤ (p ++ r).length; rw [List.length_append]; omega) (Nat.zero_le _) hrest
 
 
+open ScanS ScanX ScanK in
+/-- **`scan (p ++ r) = scan p ⧺ scan r`** as an equation on token lists: under the hypotheses of `scan_append`, the
+    tokens of the scan of `p` (its `EOF` apart) are — exactly, positions included — the first tokens of the scan of `p ++ r`;
+    the types and texts of all its tokens are those of `p`'s followed by those of the scan of `r`; and it ends as the scan
+    of `r` ends (no error, or the same message). -/
+theorem scan_append_tokens (cfg : ScanCfg) (hcfg : ScanP.CfgOK cfg) (f f2 : Nat) (p r : List Char)
+    (he : Ends p.toArray) (hok : (scan cfg .initial f p).error = none) :
+    (scan cfg .initial f p).toks.pop.toList <+: (scan cfg .initial f (p ++ r)).toks.toList ∧
+    (scan cfg .initial f (p ++ r)).toks.toList.map key =
+      (scan cfg .initial f p).toks.pop.toList.map key ++ (scan cfg .initial f2 r).toks.toList.map key ∧
+    (scan cfg .initial f (p ++ r)).error.map errKey = (scan cfg .initial f2 r).error.map errKey := by
+  obtain ⟨s, hr, hs, hrel⟩ := scan_append cfg hcfg f f2 p r he hok
+  have hpre : s.toks.toList <+: (scan cfg .initial f (p ++ r)).toks.toList := by
+    rw [scan_of_reach cfg .initial f (p ++ r) s hr]
+    exact finish_prefix s _ (tp_scanLoop cfg .initial s _ s (Ext.refl s))
+  refine ⟨by rw [← hs]; exact hpre, ?_, hrel.2⟩
+  have htake := List.prefix_iff_eq_take.mp hpre
+  have hdrop := hrel.1.eq
+  simp only [List.drop_zero, Array.length_toList] at hdrop htake
+  conv => lhs; rw [← List.take_append_drop s.toks.size (scan cfg .initial f (p ++ r)).toks.toList]
+  rw [List.map_append, hdrop, ← htake, hs]
+
+
+open ScanS ScanX in
+/-- leading blank lines and indentation: a text and the same text behind blanks, tabs and newlines scan alike -/
+theorem leading_blanks (cfg : ScanCfg) (f : Nat) (c r : List Char) (hc : c.all isBlank = true) :
+    (scan cfg .initial f (c ++ r)).toks.toList.map key = (scan cfg .initial f r).toks.toList.map key ∧
+    (scan cfg .initial f (c ++ r)).error.map errKey = (scan cfg .initial f r).error.map errKey := by
+  have h := blanks_between_tokens cfg f f (c ++ r) r (initState f (c ++ r)) (initState f r) (Reach.refl _) (Reach.refl _)
+    rfl rfl (Nat.zero_le _) (Nat.zero_le _) (by
+      show ((c ++ r).drop 0).dropWhile isBlank = (r.drop 0).dropWhile isBlank
+      rw [List.drop_zero, List.drop_zero]; exact dropWhile_append_all _ _ _ hc)
+  have h1 := h.1.eq
+  simp only [initState] at h1
+  exact ⟨h1, h.2⟩
+
+open ScanS ScanX in
+/-- **blank lines between lines change nothing**: for a newline-terminated `p` that scans without error, any run `c` of
+    blanks, tabs and newlines inserted after it leaves the types and texts of all tokens, and the outcome, unchanged -/
+theorem blank_lines_between (cfg : ScanCfg) (hcfg : ScanP.CfgOK cfg) (f : Nat) (p c r : List Char)
+    (he : Ends p.toArray) (hok : (scan cfg .initial f p).error = none) (hc : c.all isBlank = true) :
+    (scan cfg .initial f (p ++ (c ++ r))).toks.toList.map key = (scan cfg .initial f (p ++ r)).toks.toList.map key ∧
+    (scan cfg .initial f (p ++ (c ++ r))).error.map errKey = (scan cfg .initial f (p ++ r)).error.map errKey := by
+  obtain ⟨_, a2, a3⟩ := scan_append_tokens cfg hcfg f f p (c ++ r) he hok
+  obtain ⟨_, b2, b3⟩ := scan_append_tokens cfg hcfg f f p r he hok
+  obtain ⟨l1, l2⟩ := leading_blanks cfg f c r hc
+  exact ⟨by rw [a2, b2, l1], by rw [a3, b3, l2]⟩
+
+open ScanS ScanX in
+/-- **a chunk of whole lines inserted between lines adds exactly its own tokens**: `c` may be comment lines (its tokens
+    are then COMMENT tokens, which the parser drops — `comment_skipped`), statements, or the text of an included file -/
+theorem insert_lines (cfg : ScanCfg) (hcfg : ScanP.CfgOK cfg) (f : Nat) (p c r : List Char)
+    (hp : Ends p.toArray) (hpok : (scan cfg .initial f p).error = none)
+    (hcn : Ends c.toArray) (hcok : (scan cfg .initial f c).error = none) :
+    (scan cfg .initial f (p ++ (c ++ r))).toks.toList.map key =
+      (scan cfg .initial f p).toks.pop.toList.map key ++ ((scan cfg .initial f c).toks.pop.toList.map key ++
+        (scan cfg .initial f r).toks.toList.map key) ∧
+    (scan cfg .initial f (p ++ (c ++ r))).error.map errKey = (scan cfg .initial f r).error.map errKey := by
+  obtain ⟨_, a2, a3⟩ := scan_append_tokens cfg hcfg f f p (c ++ r) hp hpok
+  obtain ⟨_, b2, b3⟩ := scan_append_tokens cfg hcfg f f c r hcn hcok
+  exact ⟨by rw [a2, b2], by rw [a3, b3]⟩
+
+
 /-! non-vacuity: the hypotheses of `blanks_between_tokens` hold at concrete points (checked by evaluation), and the
     conclusion is observed on the same texts (these two `example`s are tests, not the theorem) -/
 private def cfgX : ScanCfg := ⟨["nop", "lda"], ["nop"], ["db"]⟩
@@ -268,5 +338,9 @@ example : ((scan cfgX .initial 0 "nop ; c\nlda #1\n".toList).toks.toList.drop 2)
 example : ScanX.Ends "nop\n  ; note\n".toList.toArray ∧ (scan cfgX .initial 0 "nop\n  ; note\n".toList).error = none ∧
     ScanP.CfgOK cfgX := by
   refine ⟨by unfold ScanX.Ends; decide, by decide +kernel, by unfold ScanP.CfgOK cfgX; decide⟩
+/-- the equation of `scan_append_tokens` observed on a sample (a test): "nop⏎  ; note⏎" ++ "lda #1⏎" -/
+example : (scan cfgX .initial 0 ("nop\n  ; note\n" ++ "lda #1\n").toList).toks.toList.map ScanS.key =
+    (scan cfgX .initial 0 "nop\n  ; note\n".toList).toks.pop.toList.map ScanS.key ++
+      (scan cfgX .initial 0 "lda #1\n".toList).toks.toList.map ScanS.key := by decide +kernel
 
 end A816.C16
